@@ -68,3 +68,9 @@ Definition must1 (ri rr si sr : N) (others : list obs_op) : bool :=
   N.ltb rr si && forallb (certainly_outside ri sr) others.
 Definition must0 (ri rr si sr : N) (others : list obs_op) : bool :=
   N.ltb sr ri || existsb (fun o => N.ltb rr (oo_inv o) && N.ltb (oo_ret o) si) others.
+
+(* must_some: registered before the Send started, and whatever else can have happened to the key before the Send ended
+   was another registration (an overwrite is ONE Store): the Send delivers to exactly one version of the key *)
+Definition is_store (l : label) : bool := match l with EnvStore _ _ => true | _ => false end.
+Definition must_some (ri rr si sr : N) (others : list obs_op) : bool :=
+  N.ltb rr si && forallb (fun o => certainly_outside ri sr o || is_store (oo_lab o)) others.
